@@ -176,9 +176,17 @@ func ZZ_C07_flow_lifetimes() {
 			first := world.RefreshTokenOf(resp)
 			zz.Assume(first != "")
 			// a symbolic pause before refreshing, shorter than the first refresh token's life
-			zz.Advance(time.Duration(zz.Int("pause", 0, int64(400*time.Millisecond))))
+			zz.Advance(time.Duration(zz.Int("pause", 0, int64(200*time.Millisecond))))
 			resp, err = wd.Refresh("c1", first)
 			atSlot, rtSlot = slotRefreshAT, slotRefreshRT
+			if zz.Thorough() && zz.Bool("second-refresh") {
+				// a later generation: the lifetimes of the refresh grant keep applying
+				zz.Assume(err == nil)
+				second := world.RefreshTokenOf(resp)
+				zz.Assume(second != "")
+				resp, err = wd.Refresh("c1", second) // immediately (same clock reading)
+				zz.Cover("flow:second-refresh", true)
+			}
 		}
 	case 2:
 		resp, err = wd.Password("c1", scopes)
